@@ -269,23 +269,23 @@ func findInlineSites(r *Repo) (map[string][]inlSite, []string) {
 }
 
 type inliner struct {
-	r       *Repo
-	fset    *token.FileSet
-	file    *ast.File
-	fname   string
-	sites   map[int]inlSite // by offset of the call
-	overlay map[string][]byte
-	n       int
-	seq     int
-	round   int
-	notes   []string
-	imports map[string]string // local name -> path of the file being rewritten
-	addImp  map[string]string
-	failed  string
+	r          *Repo
+	fset       *token.FileSet
+	file       *ast.File
+	fname      string
+	sites      map[int]inlSite // by offset of the call
+	overlay    map[string][]byte
+	n          int
+	seq        int
+	round      int
+	notes      []string
+	imports    map[string]string // local name -> path of the file being rewritten
+	addImp     map[string]string
+	failed     string
 	typedInfo  *types.Info
 	typedCalls map[int]*ast.CallExpr // calls of the typed tree of this file, by offset
-	drop    map[ast.Stmt]bool // statements replaced entirely by the inlined text
-	unified map[int]bool      // offsets (typed tree) of `v := e` statements whose v became the destination of the result
+	drop       map[ast.Stmt]bool     // statements replaced entirely by the inlined text
+	unified    map[int]bool          // offsets (typed tree) of `v := e` statements whose v became the destination of the result
 }
 
 func inlineInFile(r *Repo, fname string, src []byte, sites []inlSite, overlay map[string][]byte, round int) ([]byte, int, []string, error) {
